@@ -33,9 +33,15 @@ def isUnderscore (x : Seg) : Bool := x.s == "_" && x.unq
 
 def rootSeg : Seg := { s := "root", unq := true }
 
-/-- `d2format.Format(kp)` lower-cases unquoted reserved keywords of the key path it prints; of those only the three
-    board keywords are modelled (the generator uses no other reserved word as a board or object name) -/
-def formatSeg (x : Seg) : Seg := if x.unq && isKindFold x then { x with s := lowerAscii x.s } else x
+/-- `d2format.Format(d2ast.MakeKeyPathString(…))`: an element equal to a reserved keyword only up to letter case is either
+    written unquoted and lower-cased by the formatter (legacy) or quoted by `RawString` so that it keeps its spelling
+    (`keepCase`, regenerated flag).  Only the three board keywords are modelled (the generator uses no other reserved
+    word as a board or object name). -/
+def formatSeg (keepCase : Bool) (x : Seg) : Seg :=
+  if x.unq && isKindFold x then
+    if keepCase then (if lowerAscii x.s != x.s then { x with unq := false } else x)   -- RawString quotes it: spelling kept
+    else { x with s := lowerAscii x.s }                                            -- written unquoted, printed lower-case
+  else x
 
 
 /-- the scope-chopping loop: scan `i = len-1 … 1` -/
@@ -64,7 +70,7 @@ def popUnderscores : Nat → List Seg → List Seg → List Seg × List Seg
     | [] => (scope, link)
 
 /-- `compileLink`: `none` = the value is left as written -/
-def compileLink (scope link : List Seg) : Option (List Seg) :=
+def compileLink (keepCase : Bool) (scope link : List Seg) : Option (List Seg) :=
   match scope, link with
   | [], _ => none
   | _, [] => none
@@ -75,7 +81,7 @@ def compileLink (scope link : List Seg) : Option (List Seg) :=
       let sc := chopScope scope
       let (sc, lk) := popUnderscores link.length sc link
       let sc := if sc.isEmpty then [rootSeg] else sc
-      some ((sc ++ lk).map formatSeg)
+      some ((sc ++ lk).map (formatSeg keepCase))
 
 /-- `extendLinks` for one link of an imported map: `importIDA` is the IDA of the importing field, `link` the value the
     imported file's own compilation stored (its first element — the imported file's `root` — is replaced by the
@@ -92,7 +98,7 @@ def extendLinkRaw (importIDA link : List Seg) : List Seg :=
   | _ :: tail => extendTail importIDA tail
 
 /-- … printed with `d2format.Format` like every stored link -/
-def extendLink (importIDA link : List Seg) : List Seg := (extendLinkRaw importIDA link).map formatSeg
+def extendLink (keepCase : Bool) (importIDA link : List Seg) : List Seg := (extendLinkRaw importIDA link).map (formatSeg keepCase)
 
 /-! ### validation against the board tree -/
 
@@ -110,10 +116,11 @@ structure Cfg where
   singleRoot : Bool       -- hasBoard: one leading `root` is stripped    (legacy: every `root` element is skipped)
   idaPerLevel : Bool      -- Graph.IDA: a kind word per level            (legacy: only the board's own kind word)
   relinkByValue : Bool    -- relink compares element values              (legacy: compares the strings)
+  keepKeywordCase : Bool  -- RawString quotes keywords in odd case       (legacy: printed unquoted and lower-cased)
   deriving DecidableEq, Repr
 
-def Cfg.legacy : Cfg := ⟨false, false, false, false⟩
-def Cfg.fixed : Cfg := ⟨true, true, true, true⟩
+def Cfg.legacy : Cfg := ⟨false, false, false, false, false⟩
+def Cfg.fixed : Cfg := ⟨true, true, true, true, true⟩
 
 def isRootSeg (x : Seg) : Bool := x.s == "root" && x.unq
 
